@@ -23,7 +23,7 @@ def run(ck, build):
     def ob(cond, rule, fn, cons, ok, bad, where=None):
         return ck.ob(cond, MAP[rule], fn, cons, ok, bad, where=where)
     n = hashlib.run_init(ob, mod, "H/N0") + hashlib.run_finalize(ob, mod, "H/N0") + hashlib.run_update(ob, mod, "H/N0")
-    ck.floor("R-C10", "obligations over hash path classes", len(ck.obligations), 900)
+    ck.floor("R-C10", "obligations over hash path classes", len(ck.obligations), 600)
 
     class _R:
         def __init__(self, ck):
